@@ -125,7 +125,6 @@ Theorem gen_file_correct_partial cf o fname ns nsae p F :
   gen_file o F fname (c04_file_nodes ns nsae p) = Ok (c04_file_header fname ++ c04_ns_lines ns ++ c04_table_chunks o jp)
   /\ forall k name t data_id data first_id text fuel,
        c04_find p name = Some t ->
-       template_mode (entry_mode (ct_ns_ae t)) (ct_ae t) = ct_mode t ->
        forallb (fun kv => core_value (snd kv)) data = true ->
        c04_tout (c_ij cf) go_print_text p (S k) name (fun q => assoc_s q data) = Some text ->
        (S k * c04_D p <= fuel)%nat ->
@@ -137,9 +136,9 @@ Theorem gen_file_correct_partial cf o fname ns nsae p F :
              c04_jcall jp (S k) name (to_js (VMap data_id data)) ijv = Ok text).
 Proof.
   intros Hob Hij Hreg HCN HIF HNB Hall HF jp. split; [exact (gen_file_chunks o HCN HNB fname ns nsae F p HIF Hall HF)|].
-  intros k name t data_id data first_id text fuel Ef Hm Hcore E Hfu.
+  intros k name t data_id data first_id text fuel Ef Hcore E Hfu.
   pose proof (js_call_correct_tbl cf p Hij jp (c04_jprog_chain_ok p 0) (S k)) as HJ.
-  split; [exact (go_render_correct cf p Hob Hij Hreg k name t data_id data first_id text fuel Ef Hm Hcore E Hfu)|]. split.
+  split; [exact (go_render_correct cf p Hob Hij Hreg k name t data_id data first_id text fuel Ef Hcore E Hfu)|]. split.
   - intros jd ijv DR Hi. exact (HJ name _ text jd ijv E DR Hi).
   - intros Hk ijv Hi. apply (HJ name _ text _ ijv E); [|exact Hi]. apply datarel_map; [exact Hcore|exact Hk].
 Qed.
@@ -185,7 +184,6 @@ Theorem gen_registry_correct_partial cf o fs F :
      = Ok (c04_file_header (cfl_name f) ++ c04_ns_lines (cfl_ns f) ++ c04_table_chunks o (c04_jprog_chain (cfl_tmpls f) 0)))
   /\ forall k name t data_id data first_id text fuel,
        c04_find p name = Some t ->
-       template_mode (entry_mode (ct_ns_ae t)) (ct_ae t) = ct_mode t ->
        forallb (fun kv => core_value (snd kv)) data = true ->
        c04_tout (c_ij cf) go_print_text p (S k) name (fun q => assoc_s q data) = Some text ->
        (S k * c04_D p <= fuel)%nat ->
@@ -198,9 +196,9 @@ Theorem gen_registry_correct_partial cf o fs F :
 Proof.
   intros Hob Hij Hreg HCN HIF HNB Hall HF p jp. split.
   - intros f Hf. exact (gen_file_chunks o HCN HNB (cfl_name f) (cfl_ns f) (cfl_ae f) F (cfl_tmpls f) HIF (Hall f Hf) HF).
-  - intros k name t data_id data first_id text fuel Ef Hm Hcore E Hfu.
+  - intros k name t data_id data first_id text fuel Ef Hcore E Hfu.
     pose proof (js_call_correct_tbl cf p Hij jp (c04_all_jprog_ok fs) (S k)) as HJ.
-    split; [exact (go_render_correct cf p Hob Hij Hreg k name t data_id data first_id text fuel Ef Hm Hcore E Hfu)|]. split.
+    split; [exact (go_render_correct cf p Hob Hij Hreg k name t data_id data first_id text fuel Ef Hcore E Hfu)|]. split.
     + intros jd ijv DR Hi. exact (HJ name _ text jd ijv E DR Hi).
     + intros Hk ijv Hi. apply (HJ name _ text _ ijv E); [|exact Hi]. apply datarel_map; [exact Hcore|exact Hk].
 Qed.
